@@ -1,4 +1,6 @@
 import Acv.Driver.Decode
+import Acv.Model.PipelineChecks
+import Acv.Gen.Pipeline
 /-! protocol operations: one JSON case in, one JSON line out -/
 namespace Acv.Driver
 open Lean (Json)
@@ -43,10 +45,33 @@ def opC01 (j : Json) : R Json := do
       if Dnf.dnfFires env (dnf.map Dnf.Gen.toBranch) n then impl := s!"{name}|{n.id}" :: impl
   return Json.mkObj [("reported", jstrs (sortStrs spec)), ("implReported", jstrs (sortStrs impl))]
 
+def decOutcome (s : String) : R Pipe.Outcome :=
+  match s with
+  | "ok" => pure .ok | "err" => pure .err | "panic" => pure .panic
+  | _ => throw s!"bad outcome {s}"
+
+def outcomeStr : Pipe.Outcome → String
+  | .ok => "ok" | .err => "err" | .panic => "panic"
+
+/-- pipe: run the regenerated pipeline skeleton under a given outcome of each external step -/
+def opPipe (j : Json) : R Json := do
+  let entry ← fldNat j "entry"
+  let oracle ← (← fldArr j "oracle").mapM (fun x => do decOutcome (← str x))
+  let (tr, out) := Pipe.run Gen.pipeline (Pipe.asOracle oracle) entry
+  let evs := Pipe.events tr
+  let ms := Pipe.milestones Gen.milestoneStarts Gen.milestoneDones evs
+  let names := ms.map (fun m => ((Gen.eventNames.getD (evs.getD m.1 0) "").dropEnd 5).toString)
+  return Json.mkObj [
+    ("outcome", Json.str (outcomeStr out)),
+    ("events", Json.arr (evs.map (fun (e : Nat) => Json.num (Lean.JsonNumber.fromNat e))).toArray),
+    ("closes", Json.num (Pipe.closeCount tr)),
+    ("milestones", jstrs names)]
+
 def runOp (j : Json) : R Json := do
   match ← fldStr j "op" with
   | "c01" => opC01 j
   | "c02" => opC02 j
+  | "pipe" => opPipe j
   | op => throw s!"unknown op {op}"
 
 def handleLine (line : String) : String :=
